@@ -23,6 +23,7 @@ import sys
 import ast
 import collections
 import functools
+import threading
 import types
 
 from sigtools import _signatures, _util
@@ -464,10 +465,34 @@ def autoforwards_hint(func, args, kwargs):
         raise UnknownForwards()
 
 
+_in_progress = threading.local()
+
+
+def _discovery_key(func, args, kwargs):
+    def ident(value):
+        return None if isinstance(value, Unknown) else id(value)
+    return (
+        id(func), tuple(ident(arg) for arg in args),
+        tuple(sorted((name, ident(arg)) for name, arg in kwargs.items())))
+
+
 def autoforwards_ast(func, func_ast, sig, args=(), kwargs={}):
-    sigs = list(forward_signatures(
-        func, CallListerVisitor(func_ast),
-        args, kwargs, sig))
+    try:
+        in_progress = _in_progress.keys
+    except AttributeError:
+        in_progress = _in_progress.keys = []
+    key = _discovery_key(func, args, kwargs)
+    if key in in_progress:
+        # func ends up forwarding to itself with the same arguments:
+        # following the calls any further would never end
+        raise UnknownForwards('Recursive forwarding of *args, **kwargs')
+    in_progress.append(key)
+    try:
+        sigs = list(forward_signatures(
+            func, CallListerVisitor(func_ast),
+            args, kwargs, sig))
+    finally:
+        in_progress.pop()
     if sigs:
         return _signatures.merge(*sigs)
     else:
